@@ -95,3 +95,12 @@ def run_shared(coro):
     loop = shared_loop()
     asyncio.set_event_loop(loop)
     return loop.run_until_complete(coro)
+
+
+async def settle(loop, rounds: int = 200):
+    """Run until no callback is ready, without advancing the virtual clock."""
+    for _ in range(rounds):
+        await asyncio.sleep(0)
+        if not loop._ready:
+            return
+    raise VBudget("world did not settle")
